@@ -40,13 +40,13 @@ class Check:
     # ------------------------------------------------------------------
     def ob(self, key, ok, rule, where="", detail="", argument=""):
         """record an obligation; ok=True discharged, False violated"""
-        rec = {"key": "%s/%s" % (self.prop, key), "rule": rule, "where": where,
+        rec = {"key": "%s/%s%s" % (self.prop, getattr(self, "prefix", ""), key), "rule": rule, "where": where,
                "status": "discharged" if ok else "violated", "detail": detail, "argument": argument}
         self.obligations.append(rec)
         return ok
 
     def fail(self, key, rule, where="", detail="", status="violated"):
-        rec = {"key": "%s/%s" % (self.prop, key), "rule": rule, "where": where,
+        rec = {"key": "%s/%s%s" % (self.prop, getattr(self, "prefix", ""), key), "rule": rule, "where": where,
                "status": status, "detail": detail, "argument": ""}
         self.obligations.append(rec)
 
